@@ -214,27 +214,54 @@ end angmom
 
 /-! ### spin-j matrices (`get_su2_irrep`, `_lie.py:205-270`) -/
 
-def factF : Nat → Float
+def factN : Nat → Nat
   | 0 => 1
-  | n + 1 => (n + 1).toFloat * factF n
+  | n + 1 => (n + 1) * factN n
 
-def powF (x : Float) : Nat → Float
+/-- `x^n` by repeated multiplication (`np.vander(…, increasing=True)` columns) -/
+def powG {β : Type} [Mul β] [One β] (x : β) : Nat → β
   | 0 => 1
-  | n + 1 => powF x n * x
+  | n + 1 => powG x n * x
+
+section wigner
+variable {α : Type} [Add α] [Sub α] [Mul α] [Neg α] [Div α] [Zero α] [One α]
 
 /-- Wigner small-d entry for row `i`, column `k` (`M = j2/2 - i`, `N = j2/2 - k`):
 `Σ_R (-1)^R √((j+M)!(j-M)!(j+N)!(j-N)!) / ((j+M-R)! (j-N-R)! R! (R-M+N)!) · cb^(j2-(2R-M+N)) · sb^(2R-M+N)`,
 `R` over all values for which the four factorial arguments are non-negative
-(`_lie.py:215-224` builds exactly this range from the shifted triangular circulant). -/
-def wignerD (j2 : Nat) (cb sb : Float) (i k : Nat) : Float :=
+(`_lie.py:215-224` builds exactly this range from the shifted triangular circulant).
+`sq n` stands for `√n`, `ofNat` for the cast `ℕ → α`. -/
+def wignerDG (sq ofNat : Nat → α) (j2 : Nat) (cb sb : α) (i k : Nat) : α :=
   let lo := k - i            -- truncated subtraction: max(0, k-i)
   let hi := min (j2 - i) k
-  let pre := Float.sqrt (factF (j2 - i) * factF i * factF (j2 - k) * factF k)
   (List.range (hi + 1 - lo)).foldl (fun acc t =>
     let r := lo + t
     let e := 2 * r + i - k
-    let sgn : Float := if r % 2 = 0 then 1 else -1
-    acc + sgn * pre / (factF (j2 - i - r) * factF (k - r) * factF r * factF (r + i - k)) * powF cb (j2 - e) * powF sb e) 0
+    let sgn : α := if r % 2 = 0 then 1 else -1
+    acc + sgn * sq (factN (j2 - i) * factN i * factN (j2 - k) * factN k)
+            / ofNat (factN (j2 - i - r) * factN (k - r) * factN r * factN (r + i - k)) * powG cb (j2 - e) * powG sb e) 0
+
+/-- `get_su2_irrep` on the half-angle data of `angleToSU2cs` (`cb, sb = cos, sin(β/2)`, `p = e^{i(α+γ)/2}`, `m = e^{i(α-γ)/2}`):
+`exp(-i M α)·d_{MN}(β)·exp(-i N γ) = p̄^{j2} (p m)^i (p m̄)^k · d_{ik}`. -/
+def irrepCS (sq ofNat : Nat → α) (j2 : Nat) (cb sb : α) (p m : Cx α) (i k : Nat) : Cx α :=
+  Cx.smul (wignerDG sq ofNat j2 cb sb i k) (powG p.conj j2 * powG (p * m) i * powG (p * m.conj) k)
+
+/-- the matrix of `Sym^{j2}(U)`, `U = [[a, b], [c, d]]`, in the normalised monomial basis:
+`Σ_R √((j2-i)! i! (j2-k)! k!) / ((j2-i-R)! (k-R)! R! (R+i-k)!) · a^(j2-i-R) d^(k-R) b^R c^(R+i-k)`. -/
+def symD (sq ofNat : Nat → α) (j2 : Nat) (a b c d : Cx α) (i k : Nat) : Cx α :=
+  let lo := k - i
+  let hi := min (j2 - i) k
+  (List.range (hi + 1 - lo)).foldl (fun acc t =>
+    let r := lo + t
+    acc + Cx.smul (sq (factN (j2 - i) * factN i * factN (j2 - k) * factN k)
+            / ofNat (factN (j2 - i - r) * factN (k - r) * factN r * factN (r + i - k)))
+          (powG a (j2 - i - r) * powG d (k - r) * powG b r * powG c (r + i - k))) 0
+
+end wigner
+
+/-- the Float instance used by the driver -/
+def wignerD (j2 : Nat) (cb sb : Float) (i k : Nat) : Float :=
+  wignerDG (fun n => Float.sqrt n.toFloat) Nat.toFloat j2 cb sb i k
 
 /-- `get_su2_irrep(j2, α, β, γ)`: `exp(-i M α) d_{MN}(β) exp(-i N γ)`. -/
 def su2Irrep (j2 : Nat) (al be ga : Float) (i k : Nat) : Cx Float :=
